@@ -177,6 +177,42 @@ def r6_derived_cloning_policy(ctx):
     derived_inherits(ctx, 'C02.R6', 'cloning_policy', '::CloningPolicy', 'cloning policy')
 
 
+def r7_types_keyed_by_identity(ctx):
+    ctx.rule('C02.R7', 'P7 (expected count 0, positive control: map operations keyed by Type itself): in the analyses of pavexc no map operation '
+             '(entry / insert / get / contains_key / remove) uses a key that was produced by formatting a rustdoc_ir::Type (Debug / Display / '
+             'render): the rendering omits the package id, so two distinct types with the same path (two versions of one crate) would be '
+             'treated as one and a legitimate blueprint reported as ambiguous.')
+    KEYED = ('entry', 'insert', 'get', 'get_mut', 'contains_key', 'remove', 'get_or_insert_with')
+    n_by_type, bad = 0, 0
+    for b in ctx.fb.bodies('pavexc'):
+        if b.is_promoted or 'analyses::' not in b.nid:
+            continue
+        defs = None
+        for bb, t in b.calls():
+            c = callee(t) or ''
+            if c.split('::')[-1] not in KEYED or len(t['aty']) < 2 or not any(k in t['aty'][0] for k in ('HashMap<', 'BTreeMap<', 'IndexMap<')):
+                continue
+            kty = t['aty'][1]
+            if 'rustdoc_ir::Type' in kty or 'CanonicalType' in kty:
+                n_by_type += 1
+                continue
+            if not any(k in kty for k in ('String', 'str')):
+                continue
+            defs = defs or Defs(b)
+            pl = op_place(t['args'][1])
+            if pl is None:
+                continue
+            sl, _ = backward_slice(b, pl['l'], defs)
+            fmt = [nd for cc, _, nd in slice_calls(sl) if cc.startswith('core::fmt::rt::Argument::new_') and any('rustdoc_ir::Type' in g or 'rustdoc_ir::type_::' in g for g in nd.get('ga', []))]
+            rend = [cc for cc, _, nd in slice_calls(sl) if cc.split('::')[-1] in ('render_type', 'display_for_error', 'render_with_inferred_lifetimes') and 'rustdoc_ir' in cc]
+            if fmt or rend:
+                bad += 1
+                ctx.ob('C02.R7', 'keyed-by-rendering|%s' % b.nid.replace(PX, ''), False, b.loc(bb, t),
+                       '%s on %s uses a key obtained by formatting a rustdoc_ir::Type' % (c.split('::')[-1], t['aty'][0][:60]))
+    ctx.floor('C02.R7', 'map operations keyed by Type / CanonicalType in the analyses (positive control)', n_by_type, 10)
+    ctx.ob('C02.R7', 'no-map-keyed-by-a-rendered-type', bad == 0, '', '%d map operation(s) keyed by a rendered type; %d keyed by the type itself' % (bad, n_by_type))
+
+
 def check(ctx):
     r1_exemptions_first(ctx)
     r2_control_flow_test(ctx)
@@ -184,3 +220,4 @@ def check(ctx):
     r4_conflicts_per_domain(ctx)
     r5_rebinding(ctx)
     r6_derived_cloning_policy(ctx)
+    r7_types_keyed_by_identity(ctx)
